@@ -23,7 +23,7 @@ def flip(sig):
 JS_OPT_LIB = r"""
 #[diplomat::bridge]
 mod ffi {
-    use diplomat_runtime::DiplomatOption;
+    use diplomat_runtime::{DiplomatOption, DiplomatChar};
     #[diplomat::opaque]
     pub struct Host(u8);
     impl Host {
@@ -31,7 +31,8 @@ mod ffi {
     }
 }
 """
-JS_OPT_PRIMS = [("u8", "7", "0"), ("i32", "-5", "0"), ("u16", "513", "0"), ("f64", "2.5", "0"), ("f32", "1.5", "0"), ("bool", "true", "false"), ("i8", "-1", "0"), ("u32", "9", "0")]
+JS_OPT_PRIMS = [("u8", "7", "0"), ("i32", "-5", "0"), ("u16", "513", "0"), ("f64", "2.5", "0"), ("f32", "1.5", "0"), ("bool", "true", "false"), ("i8", "-1", "0"), ("u32", "9", "0"),
+                ("u64", "9n", "0n"), ("i64", "-3n", "0n"), ("isize", "-2", "0"), ("char", "0x1F600", "0")]
 
 
 def js_option_args_leg(rep, wd):
@@ -42,8 +43,8 @@ def js_option_args_leg(rep, wd):
     import c08
     ms = []
     for i, (pt, _, _) in enumerate(JS_OPT_PRIMS):
-        ms.append("        pub fn std%d(&self, v: Option<%s>) {}" % (i, pt))
-        ms.append("        pub fn dip%d(&self, v: DiplomatOption<%s>) {}" % (i, pt))
+        ms.append("        pub fn std%d(&self, v: Option<%s>) {}" % (i, abisig.PRIM_RUST[pt]))
+        ms.append("        pub fn dip%d(&self, v: DiplomatOption<%s>) {}" % (i, abisig.PRIM_RUST[pt]))
     src = os.path.join(wd, "jsopt.rs")
     open(src, "w").write(JS_OPT_LIB % "\n".join(ms))
     out = os.path.join(wd, "js_optargs")
@@ -93,7 +94,7 @@ def js_option_args_leg(rep, wd):
             elif pt == "f64":
                 want = struct.unpack("<Q", struct.pack("<d", float(val)))[0]
             else:
-                want = int(val) % (1 << (8 * {"8": 1, "6": 2, "2": 4}[pt[-1]]))
+                want = int(val.rstrip("n"), 0) % (1 << (8 * {"u8": 1, "i8": 1, "u16": 2, "u64": 8, "i64": 8}.get(pt, 4)))
             got = float(a[1])
             if got != float(want):
                 rep.violation(dict(key, what="payload of a present option differs"), dict(r, expected=want))
